@@ -439,7 +439,7 @@ def adjust_p(pvalues, adjustment='holm-bonferroni'):
     n = len(pvalues)
     # calculate adjusted p-values
     if adjustment == 'holm-bonferroni':
-        order = rankdata(pvalues)
+        order = rankdata(pvalues, method='min')
         adj_pvalues = np.minimum(pvalues*(n - order + 1), np.ones(n))
         p_order = np.argsort(pvalues)
         prev_order = p_order[0]
@@ -449,7 +449,7 @@ def adjust_p(pvalues, adjustment='holm-bonferroni'):
     elif adjustment == 'bonferroni':
         adj_pvalues = np.minimum(pvalues*n, np.ones(n))
     elif adjustment == 'benjamini-hochberg':
-        order = rankdata(pvalues)
+        order = rankdata(pvalues, method='max')
         adj_pvalues = np.minimum(pvalues*(n / (order)), np.ones(n))
         # make sure non-decreasing
         prev_order = np.argsort(pvalues)[::-1][0]
